@@ -5,7 +5,7 @@ COMMON_NOTE = ("Trusted: Lean 4.33.0 kernel; axioms propext, Classical.choice, Q
                "modelled, and validated against the real app.AnteHandler() on every generated transaction, not verified. ")
 
 SUITES = {
-    "ante": dict(quick_ops=20000, thorough_ops=100000, driver="ante", accept_floor=10),
+    "ante": dict(quick_ops=60000, thorough_ops=100000, driver="ante", accept_floor=10),
 }
 
 PROPS = {
